@@ -56,7 +56,8 @@ def oracle(ops, meta, il):
 def run(R):
     ok, badthm = R.prove()
     ops, meta = build_ops(R)
-    ops, meta, il, ml = CS.run_budgeted(R, ops, meta)
+    starts = [i for i, m in enumerate(meta) if m[1] == "obj" and (i == 0 or meta[i - 1][1] != "obj")]
+    ops, meta, il, ml = CS.run_budgeted(R, ops, meta, group_starts=starts)
     def proj(op, a, b):
         if op.startswith("C "): return CS.proj_crypt(op, a, b)
         if op.startswith("G "): return None if (a.get("ret"), a.get("errno")) == (b.get("ret"), b.get("errno")) else "gensalt differs"
